@@ -217,9 +217,10 @@ impl Server {
 
 impl Drop for Server {
     fn drop(&mut self) {
-        if self.death.is_none() {
-            let _ = self.choice_tx.send(SimChoice::Stop);
-        }
+        // (`death` may have been set from outside — the real process this server stands beside
+        // died — while the thread is still parked: always tell it to stop; if it has ended
+        // already nobody listens, which is fine)
+        let _ = self.choice_tx.send(SimChoice::Stop);
         if let Some(t) = self.thread.take() {
             let _ = t.join();
         }
